@@ -144,7 +144,7 @@ EXPORT errno_t _strstr_s_chk(char *dest, rsize_t dmax, const char *src,
         return RCNEGATE(ESZEROL);
     }
 
-    while (*dest && dmax) {
+    while (dmax && *dest) {
         i = 0;
         len = slen;
         dlen = dmax;
